@@ -164,6 +164,7 @@ def write_replay(prop: str, v: dict) -> str:
         json.dump(v, f, indent=1, sort_keys=True)
     case = v.get('case')
     if isinstance(case, dict) and 'files' in case and 'config' in case:
+        os.makedirs(os.path.join(d, 'src'), exist_ok=True)
         for name, text in case['files'].items():
             p = os.path.join(d, 'src', name)
             os.makedirs(os.path.dirname(p), exist_ok=True)
